@@ -301,6 +301,94 @@ def _public(ctx, name, n, rounds, byes, full_rows, sts, lo=0, hi=None):
     return len(vals)
 
 
+def _long_job(a):
+    """
+    Long 4-team tournaments (storage edge of the objective's scratch arrays).
+
+    The temporary arrays of the Errors objective store day indices; their
+    type is chosen from the number of days, whose int8 edge is 127/128.
+    Plans: a feasible 6-day block repeated, with the 3-day half block at one
+    of five positions replaced by every one of the 12^3 consistent half
+    blocks (deviation bound 1); all plans are consistent, so the value must
+    equal the documented rule count.
+    """
+    from moptipyapps.ttp.errors import Errors
+    rounds, st, pos_i = a
+    n = 4
+    days = 3 * rounds
+    cfg = M.day_config_array(4)
+    base = None
+    for idx in range(12 ** 6):
+        y = T.plan_from_index(idx, cfg, 6)
+        if M.feasible(y, 2, 1, 3, 1, 3, 1, 6):
+            base = y
+            break
+    full = np.concatenate([base] * (rounds // 2 + 1))[:days]
+    inst = T.make_instance(n, rounds, st)
+    obj = Errors(inst)
+    gp = T.to_game_plan(inst, full)
+    ub = (4 * days - 1) * n - 1
+    halves = days // 3
+    pos = [0, 1, halves // 2, halves - 2, halves - 1][pos_i]
+    cnt = 0
+    vals = set()
+    for h in range(12 ** 3):
+        y = full.copy()
+        y[3 * pos:3 * pos + 3] = T.plan_from_index(h, cfg, 3)
+        gp[:, :] = y
+        got = int(obj.evaluate(gp))
+        cnt += 1
+        vals.add(got)
+        fe = bool(M.feasible(y, rounds, *st))
+        exp = int(M.rule_count(y, rounds, *st))
+        bad = 0
+        if (got == 0) != fe:
+            bad = 2
+        elif got != exp:
+            bad = 1
+        elif not 0 <= got <= ub:
+            bad = 3
+        if bad:
+            return ("bad", y.tolist(), bad, got, exp if bad != 3 else ub,
+                    cnt, len(vals))
+    return ("ok", cnt, len(vals))
+
+
+def _long(ctx):
+    jobs = [(r, st, p) for r in ((42, 43, 44) if ctx.quick
+                                 else (41, 42, 43, 44, 50, 100))
+            for st in ((1, 3, 1, 3, 1, 6), (1, 3, 1, 3, 2, 125))
+            for p in range(5)]
+    out = pmap(_long_job, jobs, ctx.jobs)
+    cnt = 0
+    dv = 0
+    for j, r in zip(jobs, out):
+        if r[0] == "ok":
+            cnt += r[1]
+            dv = max(dv, r[2])
+        else:
+            y = np.array(r[1])
+            st = list(j[1])
+            sig = ("Errors|long tournament|" + KIND[r[2]])
+            ctx.violation(
+                sig, f"{KIND[r[2]]}: n=4 rounds={j[0]} ({3 * j[0]} days) "
+                f"setting={st}: 6-day block repeated with one half block "
+                f"replaced (rows {3 * [0, 1, j[0] // 2, j[0] - 2, j[0] - 1][j[2]]}"
+                f"..): public Errors.evaluate={r[3]} expected={r[4]}",
+                {"plan": y.tolist(), "rounds": j[0], "setting": st,
+                 "kind": r[2], "observed": r[3], "expected": r[4]})
+            cnt += r[5]
+    ctx.add("evaluations", cnt)
+    ctx.add("traces_validated_against_impl", cnt)
+    ctx.add("transitions", cnt)
+    ctx.part("public_long_tournaments_n4", plans=cnt,
+             rounds=sorted({j[0] for j in jobs}),
+             max_distinct_error_values=dv)
+    ctx.log(f"long tournaments (126..132+ days): exec={cnt} "
+            f"distinct_values<={dv}")
+    return dv
+
+
 def run(ctx: Ctx) -> None:
     T.drivers()
     quick = ctx.quick
@@ -376,6 +464,7 @@ def run(ctx: Ctx) -> None:
                             pub[:1], 0, 12 ** 5)
     else:
         distinct += _public(ctx, "public_n4_r2", 4, 2, False, False, pub)
+    distinct += _long(ctx)
     # shipped instances: settings as shipped, public API
     from moptipyapps.ttp.instance import Instance
     shipped = set()
